@@ -624,7 +624,7 @@ func Run(tier string) int {
 	e := prepare()
 	n := 80
 	if tier == "thorough" {
-		n = 900
+		n = 600
 	}
 	if v := os.Getenv("VERIF_PROGRAMS"); v != "" {
 		fmt.Sscan(v, &n)
